@@ -126,7 +126,7 @@ def run_case(case):
         t = RD.read_dlpoly_table(text)
     except RD.FormatError as e:
         return dict(outcome='format-error', nontrivial=True,
-                    violations=[dict(sig='format:' + str(e).split(':')[0][:40], msg='unreadable DL_POLY TABLE: %s' % e, detail={'text': text[:1500]})])
+                    violations=[dict(sig='format-error', msg='unreadable DL_POLY TABLE: %s' % e, detail={'text': text[:1500]})])
     viol = check_table(case, t)
     return dict(outcome='ok:%s:%d' % (case['route'], len(t['blocks'])) if not viol else 'violation', nontrivial=True,
                 evals=2 * t['ngrid'] * len(t['blocks']), violations=viol)
